@@ -190,6 +190,8 @@ package bttest
 // handed to updateRow; the lock is released and re-taken in balance (loop-balance obligation of the caller).
 //@ func (t *table) gc$1
 //@   property C16 C20
+//@   callsite (*table).updateRow requires arg1 == r && changed
+//@   callsite (*table).updateRow requires exists a, b :: 0 <= a < len(r.Families) && 0 <= b < len(r.Families[a].Columns) && len(r.Families[a].Columns[b].Cells) < old(len(r.Families[a].Columns[b].Cells))
 //@   loop 1 invariant frameOld(heap("F:bigtablepb.Row.Families"), heap("T:*bigtablepb.Family"), heap("F:bigtablepb.Family.Columns"), heap("T:*bigtablepb.Column"), heap("T:*bigtablepb.Cell"))
 //@   loop 1 invariant rowOK(r)
 //@   loop 1 invariant rowDesc(r)
@@ -197,6 +199,8 @@ package bttest
 //@   loop 1 invariant forall a, b :: 0 <= a < len(r.Families) && 0 <= b < len(r.Families[a].Columns) && rules[r.Families[a].Name] == nil ==> r.Families[a].Columns[b].Cells == old(r.Families[a].Columns[b].Cells)
 //@   loop 1 invariant forall a, b :: idx1 < a < len(r.Families) && 0 <= b < len(r.Families[a].Columns) ==> r.Families[a].Columns[b].Cells == old(r.Families[a].Columns[b].Cells)
 //@   loop 1 invariant forall a, b :: 0 <= a < len(r.Families) && 0 <= b < len(r.Families[a].Columns) ==> len(r.Families[a].Columns[b].Cells) <= old(len(r.Families[a].Columns[b].Cells))
+//@   loop 1 invariant forall a, b, k :: 0 <= a < len(r.Families) && 0 <= b < len(r.Families[a].Columns) && 0 <= k < len(r.Families[a].Columns[b].Cells) ==> r.Families[a].Columns[b].Cells[k] == old(r.Families[a].Columns[b].Cells[k])
+//@   loop 1 invariant forall a, b :: 0 <= a <= idx1 && 0 <= b < len(r.Families[a].Columns) && rules[r.Families[a].Name] != nil && typeis(rules[r.Families[a].Name].Rule, *btapb.GcRule_MaxNumVersions) && as(rules[r.Families[a].Name].Rule, *btapb.GcRule_MaxNumVersions).MaxNumVersions >= 0 ==> len(r.Families[a].Columns[b].Cells) == min(old(len(r.Families[a].Columns[b].Cells)), as(rules[r.Families[a].Name].Rule, *btapb.GcRule_MaxNumVersions).MaxNumVersions)
 //@   loop 1 invariant changed ==> (exists a, b :: 0 <= a <= idx1 && 0 <= b < len(r.Families[a].Columns) && len(r.Families[a].Columns[b].Cells) != old(len(r.Families[a].Columns[b].Cells)))
 //@   loop 1 invariant !changed ==> (forall a, b :: 0 <= a <= idx1 && 0 <= b < len(r.Families[a].Columns) ==> len(r.Families[a].Columns[b].Cells) == old(len(r.Families[a].Columns[b].Cells)))
 //@   loop 2 invariant frameOld(heap("F:bigtablepb.Row.Families"), heap("T:*bigtablepb.Family"), heap("F:bigtablepb.Family.Columns"), heap("T:*bigtablepb.Column"), heap("T:*bigtablepb.Cell"))
@@ -207,6 +211,9 @@ package bttest
 //@   loop 2 invariant forall a, b :: idx1 + 1 < a < len(r.Families) && 0 <= b < len(r.Families[a].Columns) ==> r.Families[a].Columns[b].Cells == old(r.Families[a].Columns[b].Cells)
 //@   loop 2 invariant forall b :: idx2 < b < len(fam.Columns) ==> fam.Columns[b].Cells == old(fam.Columns[b].Cells)
 //@   loop 2 invariant forall a, b :: 0 <= a < len(r.Families) && 0 <= b < len(r.Families[a].Columns) ==> len(r.Families[a].Columns[b].Cells) <= old(len(r.Families[a].Columns[b].Cells))
+//@   loop 2 invariant forall a, b, k :: 0 <= a < len(r.Families) && 0 <= b < len(r.Families[a].Columns) && 0 <= k < len(r.Families[a].Columns[b].Cells) ==> r.Families[a].Columns[b].Cells[k] == old(r.Families[a].Columns[b].Cells[k])
+//@   loop 2 invariant forall a, b :: 0 <= a <= idx1 && 0 <= b < len(r.Families[a].Columns) && rules[r.Families[a].Name] != nil && typeis(rules[r.Families[a].Name].Rule, *btapb.GcRule_MaxNumVersions) && as(rules[r.Families[a].Name].Rule, *btapb.GcRule_MaxNumVersions).MaxNumVersions >= 0 ==> len(r.Families[a].Columns[b].Cells) == min(old(len(r.Families[a].Columns[b].Cells)), as(rules[r.Families[a].Name].Rule, *btapb.GcRule_MaxNumVersions).MaxNumVersions)
+//@   loop 2 invariant forall b :: 0 <= b <= idx2 && typeis(gcRule.Rule, *btapb.GcRule_MaxNumVersions) && as(gcRule.Rule, *btapb.GcRule_MaxNumVersions).MaxNumVersions >= 0 ==> len(fam.Columns[b].Cells) == min(old(len(fam.Columns[b].Cells)), as(gcRule.Rule, *btapb.GcRule_MaxNumVersions).MaxNumVersions)
 //@   loop 2 invariant changed ==> ((exists a, b :: 0 <= a <= idx1 && 0 <= b < len(r.Families[a].Columns) && len(r.Families[a].Columns[b].Cells) != old(len(r.Families[a].Columns[b].Cells))) || (exists b :: 0 <= b <= idx2 && len(fam.Columns[b].Cells) != old(len(fam.Columns[b].Cells))))
 //@   loop 2 invariant !changed ==> (forall a, b :: 0 <= a <= idx1 && 0 <= b < len(r.Families[a].Columns) ==> len(r.Families[a].Columns[b].Cells) == old(len(r.Families[a].Columns[b].Cells)))
 //@   loop 2 invariant !changed ==> (forall b :: 0 <= b <= idx2 ==> len(fam.Columns[b].Cells) == old(len(fam.Columns[b].Cells)))
@@ -239,13 +246,16 @@ package bttest
 //@ func (s *Server) Close
 //@   property C20 C08
 //@   requires nolocks()
-//@   modifies *
 //@   ensures forall k string :: (k in s.s.tables) <==> old(k in s.s.tables)
+//@   ensures forall k string :: s.s.tables[k] == old(s.s.tables[k])
+//@   ensures s.s.tables == old(s.s.tables)
 //@   loop 1 invariant cap(tbls) == 0 || fresh(tbls)
+//@   loop 1 invariant frameOld(heap("T:*bttest.table"))
 //@   loop 1 invariant forall i :: 0 <= i < len(tbls) ==> tbls[i] != nil
 //@   loop 1 invariant held(s.s.mu) == 2
 //@   loop 2 invariant forall i :: 0 <= i < len(tbls) ==> tbls[i] != nil
 //@   loop 2 invariant nolocks()
+//@   loop 2 invariant frameOld(heap("T:*bttest.table"))
 
 // Only the init-from-storage loop matters here: every table definition reported by the storage is opened and
 // registered under its own name. Goroutine launches (Serve, gcloop) are ignored by the verifier.
@@ -258,3 +268,9 @@ package bttest
 //@   loop 1 invariant forall k string :: (k in s.s.tables) ==> s.s.tables[k] != nil
 // (the slice returned by GetTables has no name in the source, so "every definition seen so far is registered"
 // cannot be written as an invariant over it)
+
+// The Serve goroutine (entry point): it is started by NewServerWithOptions after s has been assigned the new,
+// fully initialised *Server (s = &Server{...} is non-nil; its fields l / srv are covered by the type invariants).
+//@ func NewServerWithOptions$1
+//@   property C20
+//@   requires s != nil
